@@ -272,7 +272,7 @@ func vfC13(nPre, nSteps int, kinds []int, maxType int) {
 	vfReach("end")
 }
 
-func VfC13_accounting_q() { vfC13(2, 1, []int{0, 1, 3}, 2) }
+func VfC13_accounting_q() { vfC13(2, 1, []int{0, 1, 3}, 3) }
 func VfC13_accounting_t() { vfC13(1, 2, []int{0, 2, 4}, 3) }
 
 // VfC13_recvViolation: through the REAL receive loop (Connect's goroutines), a response that completes the last
